@@ -28,6 +28,30 @@ def residual_nnls(matrix: ArrayLike, data: ArrayLike) -> tuple[ArrayLike, ArrayL
     tuple[ArrayLike, ArrayLike]
         The clps and the residual.
     """
-    clp, _ = nnls(matrix, data)
+    # scipy's active set loop compares the gradient with an absolute tolerance, hence it is
+    # not scale invariant. Scaling with powers of two is exact in floating point arithmetic.
+    matrix_scale = _power_of_two_scale(matrix)
+    data_scale = _power_of_two_scale(data)
+    clp, _ = nnls(matrix / matrix_scale, data / data_scale)
+    clp *= data_scale / matrix_scale
     residual = data - np.dot(matrix, clp)
     return clp, residual
+
+
+def _power_of_two_scale(array: ArrayLike) -> float:
+    """Get the power of two closest below the largest absolute value of an array.
+
+    Parameters
+    ----------
+    array : ArrayLike
+        The array to get the scale for.
+
+    Returns
+    -------
+    float
+        The scale or 1 if the array is empty, zero or not finite.
+    """
+    max_abs = np.max(np.abs(array)) if np.size(array) else 0.0
+    if not np.isfinite(max_abs) or max_abs == 0:
+        return 1.0
+    return float(2.0 ** np.floor(np.log2(max_abs)))
